@@ -1451,8 +1451,9 @@ class SMTFormula(Formula):
         result: Dict[str, bytes] = {
             f: pickle.dumps(v) for f, v in self.__dict__.items() if f != "formula"
         }
-        # result["formula"] = self.formula.sexpr().encode("utf-8")
-        result["formula"] = smt_expr_to_str(self.formula).encode("utf-8")
+        # Z3's own printer quotes string literals the way Z3's parser reads them back
+        # (doubled quotes, \u{...} escapes for non-ASCII characters).
+        result["formula"] = self.formula.sexpr().encode("utf-8")
         return result
 
     def __setstate__(self, state: Dict[str, bytes]) -> None:
@@ -1463,7 +1464,6 @@ class SMTFormula(Formula):
         ]
 
         formula = state["formula"].decode("utf-8")
-        formula = formula.replace(r"\"", r"\"")
         z3_constr = z3.parse_smt2_string(
             f"(assert {formula})",
             decls={
